@@ -152,7 +152,7 @@ def run(ctx):
             i += 1
         ncp += 1
         if empty:
-            ctx.check(not parts, 'C17.2', 'color:empty-text', f_color.loc(), 'empty text yields the empty string (no stray escape sequence)', 'empty text yields %s' % norm(p.outcome[1]))
+            ctx.check(not parts or [norm(x) for x in parts] == ['str(string)'], 'C17.2', 'color:empty-text', f_color.loc(), 'empty text yields the empty string (no stray escape sequence)', 'empty text yields %s' % norm(p.outcome[1]))
             continue
         ctx.check(len(texts) == 1 and not other, 'C17.2', 'color:text-once:%s' % on, f_color.loc(), 'the result contains the text exactly once and nothing else but escape sequences',
                   'color() returns %s' % norm(p.outcome[1])[:120])
@@ -204,6 +204,32 @@ def run(ctx):
                     if d.value is not None:
                         out |= code_values(f, d.value, depth + 1)
                 return out
+            if e.id in f.params() and not f.is_module_body:
+                # a parameter: the union over what the callers pass
+                idx = f.params().index(e.id) - (1 if (f.cls is not None and not f.is_static()) else 0)
+                out = set()
+                ncs = 0
+                for g, cn in named_call_sites(repo, f.name):
+                    if g is f:
+                        continue
+                    a = None
+                    for kw in cn.keywords:
+                        if kw.arg == e.id:
+                            a = kw.value
+                    if a is None and 0 <= idx < len(cn.args) and not any(isinstance(x, ast.Starred) for x in cn.args):
+                        a = cn.args[idx]
+                    if a is None:
+                        dflt = f.node.args.defaults
+                        pos = f.params().index(e.id) - (len(f.params()) - len(dflt))
+                        if 0 <= pos < len(dflt):
+                            a = dflt[pos]
+                    if a is None:
+                        raise KeyError(e.id)
+                    ncs += 1
+                    out |= code_values(g, a, depth + 1)
+                if ncs:
+                    return out
+                raise KeyError(e.id)
             r = repo.lookup(f.module, e.id)
             if r and r[0] == 'var' and r[1] is not None:
                 return code_values(r[3].body_func, r[1], depth + 1)
